@@ -40,7 +40,7 @@ class MetaSignals(type):
         for superclass in cls.__bases__:
             signals.extend(getattr(superclass, "signals", []))
         signals = list(dict.fromkeys(signals).keys())
-        d["signals"] = signals
+        cls.signals = signals
         register_signal(cls, signals)
         super().__init__(name, bases, d)
 
